@@ -321,6 +321,8 @@ struct Group {
     barrier: usize,
     /// bytes the harness itself took out at the barrier
     drained: Vec<u8>,
+    /// bytes left unread in the descriptor at the barrier (a reader was still pending)
+    unread_at_barrier: usize,
 }
 
 struct OpRt {
@@ -391,6 +393,7 @@ impl<'a> Exec<'a> {
             salt,
             barrier: usize::MAX,
             drained: Vec::new(),
+            unread_at_barrier: 0,
         });
         Ok(self.groups.len() - 1)
     }
@@ -662,7 +665,12 @@ fn run_prog(p: &Prog) -> Result<Outcome, String> {
                     set_nonblocking(fd, false);
                 }
             }
-            g.barrier = g.fed.len();
+            // what is still unread in the descriptor (a pending reader will get it after the
+            // barrier) belongs to the part of the stream before the barrier
+            let mut inq: libc::c_int = 0;
+            let unread = if unsafe { libc::ioctl(g.ours.as_raw_fd(), libc::FIONREAD, &mut inq) } == 0 { inq.max(0) as usize } else { 0 };
+            g.barrier = g.fed.len().saturating_sub(unread);
+            g.unread_at_barrier = unread;
         }
         // ---- local: feed every group that still has pending operations; they must all complete
         for _round in 0..3 {
